@@ -312,6 +312,14 @@ def part_c(ctx, corr):
             if n_settle_stop != 1:
                 ctx.witness("C14.1", {"kind": "stop_day_settled_twice"}, "stop after %s and resume: the stop day is settled %d times (once at the end of the first run, once more at the start of the resumed run)"
                             % (days[si], n_settle_stop), rp)
+            # ---- whatever is published for the stop day in the resumed run carries the stop day's date (the settlement replayed at its start)
+            for kd, e in p2.events:
+                if kd in ("PRE_SETTLEMENT", "POST_SETTLEMENT"):
+                    if e["cal"].date() != days[si] or e["trd"].date() != days[si]:
+                        ctx.witness("C14.1", {"kind": "replayed_settlement_misdated"}, "stop after %s: the resumed run settles the stop day with the clocks at %s / %s" % (days[si], e["cal"], e["trd"]), rp)
+                        break
+                else:
+                    break
             # ---- the continuation equals the uninterrupted run
             d0 = days[si + 1]
             # the continuation starts with the first entry of the resume day (a reinvestment trade is published before the PRE_BEFORE_TRADING handler runs)
